@@ -373,6 +373,40 @@ PAIRS = [("ini_sect_find", "ini_sect_findi"), ("ini_sect_val_find", "ini_sect_va
 CMP_S, CMP_I = {"mem_cmpn", "mem_cmp", "memcmp"}, {"mem_cmpin", "mem_cmpi", "strncasecmp"}
 
 
+SELECTOR_HELPERS = {"ini_val_find__int": 1}
+
+
+def selector_helper_rule(rep, u):
+    """a helper shared by the two lookup flavours picks the comparator and the value finder by its case flag: in every
+    `flag ? X : Y` the insensitive variant is on the flag-set arm"""
+    n = 0
+    for hname, idx in SELECTOR_HELPERS.items():
+        fn = u.fn(hname)
+        if fn is None:
+            continue                   # the lookups do not share a helper (older layout): nothing to check
+        rep.functions.add(hname)
+        flag = fn.params[idx]["n"]
+        insens = CMP_I | {b for a, b in PAIRS}
+        sens = CMP_S | {a for a, b in PAIRS}
+        for pos, root, x, ps in fn.nodes():
+            y = x.get("lz") if x.get("k") == "lazy" and x.get("lz") is not None else x
+            if y.get("k") != "cond" or not any(core.is_ref(z, name=flag) for z, _ in walk(y["c"])):
+                continue
+            n += 1
+            try:
+                v1 = r_mpt.eval_expr(y["c"], {id(z): 1 for z, _ in walk(y["c"]) if core.is_ref(z, name=flag)})
+            except r_mpt.Unknown:
+                rep.undecided("R-SIB", fn, "case-selector#%d" % n, "the case flag selects the matching variant", "condition not evaluable", y.get("ln"))
+                continue
+            arm_set, arm_clear = (y["x"], y["y"]) if v1 else (y["y"], y["x"])
+            cs = {z.get("fn") for z, _ in walk(arm_set) if z.get("k") == "call"}
+            cc = {z.get("fn") for z, _ in walk(arm_clear) if z.get("k") == "call"}
+            ok = bool(cs & insens) and not (cs & sens) and bool(cc & sens) and not (cc & insens)
+            (rep.proved if ok else rep.violated)("R-SIB", fn, "case-selector#%d" % n, "%s: the case flag selects the matching variant" % hname,
+                                                 "set -> %s, clear -> %s" % (sorted(x_ for x_ in cs if x_), sorted(x_ for x_ in cc if x_)), y.get("ln"))
+    return n
+
+
 def case_siblings(rep, u):
     n = 0
     names = {a for p in PAIRS for a in p}
@@ -386,6 +420,10 @@ def case_siblings(rep, u):
                 s = s.replace(nm + "(", ren.get(nm, nm) + "(")
             for c in CMP_I | CMP_S:
                 s = s.replace(c + "(", "CMP(")
+            # a shared helper selected by a case flag: the flag constant is the comparator choice (checked separately)
+            import re
+            for hname in SELECTOR_HELPERS:
+                s = re.sub(re.escape(hname) + r"\((\w+),[01],", hname + r"(\1,CASE,", s)
             return s
         return core.alpha_keys(fn, sub)
     for a, b in PAIRS:
@@ -406,6 +444,11 @@ def case_siblings(rep, u):
                 bad.append("%s calls the case-insensitive %s" % (a, callee_i))
             if callee_s in cb:
                 bad.append("%s calls the case-sensitive %s" % (b, callee_s))
+        for hname, idx in SELECTOR_HELPERS.items():
+            for f_, want_ in ((fa, 0), (fb, 1)):
+                for _p, _r, c_, _ps in f_.calls({hname}):
+                    if const_val(c_["args"][idx]) != want_:
+                        bad.append("%s passes case flag %s to %s" % (f_.name, key(c_["args"][idx]), hname))
         if norm(fa) != norm(fb):
             na, nb = norm(fa), norm(fb)
             d = next((i for i in range(min(len(na), len(nb))) if na[i] != nb[i]), min(len(na), len(nb)))
@@ -725,6 +768,7 @@ def run(rep, tier):
     n += calc_gen_agree(rep, u)
     ns = case_siblings(rep, u)
     rep.floor("case-sensitive / -insensitive pairs", ns, 5)
+    rep.floor("comparator selections in the shared lookup helper", selector_helper_rule(rep, u), 2)
     n += realloc_contract(rep, u)
     rep.floor("reallocarray boundary pairs", reallocarray_contract(rep, us[common.OS_PORTABLE]), 256)
     nd = slot_dominance(rep, u)
@@ -737,6 +781,12 @@ def run(rep, tier):
     bracket_rule(rep, u)
     enum_progress(rep, u)
     enum_progress(rep, u, "ini_sect_val_enum", "val_off", "type", "INI_LINE_TYPE_VALUE", {"sect_off": 0})
+    from props import c17_audit
+    rep.floor("value finders", c17_audit.last_match_rule(rep, u), 2)
+    rep.floor("pair lookups", c17_audit.all_sections_rule(rep, u), 3)
+    rep.floor("name finders", c17_audit.empty_name_rule(rep, u), 4)
+    rep.floor("refusal classes of ini_val_set", c17_audit.representable_rule(rep, u), 4)
+    rep.floor("counted-string helpers in mem_utils.h", c17_audit.byte_string_rule(rep, u), 8)
     return driver.finish(
         rep, "other",
         "INI store, structural clauses: generator writes guarded by offset+pending <= capacity (grid evaluation of the guard), size "
